@@ -320,6 +320,10 @@ class Effects:
             name = f.attr if isinstance(f, ast.Attribute) else (f.id if isinstance(f, ast.Name) else None)
             out = set()
             cs = callees(call)
+            if name == "copy" and len(call.args) == 1 and not call.keywords and \
+                    ((isinstance(f, ast.Attribute) and isinstance(f.value, ast.Name) and f.value.id == "copy") or isinstance(f, ast.Name)):
+                # copy.copy(x): a new object whose attributes reference the same objects as x's
+                return {(r, _trim(p + ("^",))) for r, p in refs(call.args[0])}
             if not cs:
                 if name in FRESH_CALLS or name is None:
                     return set()
@@ -342,6 +346,14 @@ class Effects:
         def record(root, path, node_, what):
             if root in fresh_params:
                 return
+            if "^" in path:
+                # "^" marks a shallow copy (copy.copy): a store to an attribute of the copy itself is private to the copy,
+                # anything deeper goes through an object the copy shares with the original
+                i = len(path) - 1 - path[::-1].index("^")
+                if i >= len(path) - 2:
+                    return
+                path = path[:i] + path[i + 1:]
+                what = what + " (through a shallow copy, which shares this object with the original)"
             if "@" in path[:-1] or (path and path[-1] == "@"):
                 return      # a store into / mutation of a fresh container
             if root.startswith("global:"):
